@@ -39,7 +39,8 @@ type regStep struct {
 	Via   string `json:"via,omitempty"` // "all" or "key:<k>" (key:"" = nil key)
 	Op    int    `json:"op,omitempty"`  // id of a blocking op (waitready)
 	Point string `json:"point,omitempty"`
-	As    int    `json:"as,omitempty"` // reserve: number under which the further Serve call's tunnel is known
+	As    int    `json:"as,omitempty"`   // reserve: number under which the further Serve call's tunnel is known
+	NoFC  bool   `json:"nofc,omitempty"` // serve: this reverse-tunnel server disables flow control (a revision-zero tunnel)
 }
 
 type regScenario struct {
@@ -71,6 +72,8 @@ type regSession struct {
 	gates      map[string]bool
 	rv         chan struct{}
 	rvN        int
+	locMu      sync.Mutex
+	loc        grpctunnel.TunnelChannel
 	rendezvous int
 	rvSpin     atomic.Int64
 	parked     map[string]chan struct{}
@@ -305,7 +308,13 @@ func runRegistry(scn regScenario) *tr.Log {
 			return nil
 		},
 		OnReverseTunnelOpen: func(ch grpctunnel.TunnelChannel) {
-			s.log.Emit("reg", tr.E{"what": "cb.open", "t": s.tunOfChan(ch)})
+			_, _, rev := grpctunnel.VerifChannelState(ch)
+			select {
+			case <-ch.Done():
+				rev = -1 // the channel ended before (or while) the settings arrived: nothing was negotiated
+			default:
+			}
+			s.log.Emit("reg", tr.E{"what": "cb.open", "t": s.tunOfChan(ch), "rev": int(rev)})
 		},
 		OnReverseTunnelClose: func(ch grpctunnel.TunnelChannel) {
 			s.log.Emit("reg", tr.E{"what": "cb.close", "t": s.tunOfChan(ch)})
@@ -324,7 +333,11 @@ func runRegistry(scn regScenario) *tr.Log {
 		case "serve":
 			t := &regTunnel{t: st.T, key: st.Key}
 			s.mu.Lock()
-			t.rts = grpctunnel.NewReverseTunnelServer(regStub{s, t})
+			if st.NoFC {
+				t.rts = grpctunnel.NewReverseTunnelServer(regStub{s, t}, grpctunnel.WithDisableFlowControl())
+			} else {
+				t.rts = grpctunnel.NewReverseTunnelServer(regStub{s, t})
+			}
 			t.rts.RegisterService(&regDesc, t)
 			s.tun[st.T] = t
 			s.mu.Unlock()
@@ -334,7 +347,7 @@ func runRegistry(scn regScenario) *tr.Log {
 			}
 			ctx, cancel := context.WithCancel(metadata.NewOutgoingContext(context.Background(), md))
 			t.cancel = cancel
-			s.log.Emit("reg", tr.E{"what": "serve.start", "t": st.T, "key": st.Key})
+			s.log.Emit("reg", tr.E{"what": "serve.start", "t": st.T, "key": st.Key, "nofc": st.NoFC})
 			go func() {
 				started, err := t.rts.Serve(ctx)
 				s.log.Emit("reg", errFields(tr.E{"what": "serve.ret", "t": st.T, "started": started}, err))
@@ -424,6 +437,23 @@ func runRegistry(scn regScenario) *tr.Log {
 				}
 				s.log.Emit("reg", errFields(tr.E{"what": "rpc", "via": st.Via, "served": served, "chan": viaT}, err))
 			}()
+		case "rpcseq":
+			// st.Op RPCs one after the other through the same pooled channel, all with ONE WithTunnelChannel location (as an
+			// application with a long-lived variable would use it): it must name the tunnel of each RPC in turn.
+			// Only used where nothing is held at a gate (an RPC routed to a held tunnel would block the driver).
+			var loc grpctunnel.TunnelChannel
+			for k := 0; k < st.Op; k++ {
+				resp := new(wrapperspb.BytesValue)
+				err := s.via(st.Via).Invoke(context.Background(), "/verif.Reg/Who", &wrapperspb.BytesValue{}, resp, grpctunnel.WithTunnelChannel(&loc))
+				served, viaT := 0, 0
+				if err == nil {
+					fmt.Sscanf(string(resp.Value), "%d", &served)
+					if loc != nil {
+						viaT = s.tunOfChan(loc)
+					}
+				}
+				s.log.Emit("reg", errFields(tr.E{"what": "rpc", "via": st.Via, "served": served, "chan": viaT}, err))
+			}
 		case "ready":
 			s.log.Emit("reg", tr.E{"what": "ready", "via": st.Via, "val": s.via(st.Via).Ready()})
 		case "waitready":
